@@ -87,7 +87,7 @@ def run(ctx):
         if 'ConsecutiveFailures' in v:
             clos_ok = False
             for c in conds:
-                if c.kind == 'disc' and c.value == 1:
+                if c.kind == 'disc' and c.variant_is(1):
                     f = c.expr.mentions_call(r'Option::<.*>::filter$')
                     if f is not None and 'liveness_states' in f.show():
                         for x in f.walk():
@@ -98,7 +98,7 @@ def run(ctx):
         elif 'LowTrust' in v:
             clos_ok = False
             for c in conds:
-                if c.kind == 'disc' and c.value == 1:
+                if c.kind == 'disc' and c.variant_is(1):
                     f = c.expr.mentions_call(r'Option::<.*>::filter$')
                     if f is not None and 'trust_scores' in f.show():
                         for x in f.walk():
@@ -113,7 +113,7 @@ def run(ctx):
                                                 clos_ok = True
             kinds['trust'] = (bb, clos_ok, conds)
         else:
-            mk = any(c.kind == 'disc' and c.value == 1 and 'marked_for_eviction' in c.expr.show() for c in conds)
+            mk = any(c.kind == 'disc' and c.variant_is(1) and 'marked_for_eviction' in c.expr.show() for c in conds)
             kinds['marked'] = (bb, mk, conds)
     for k in ('marked', 'failures', 'trust'):
         okk = k in kinds and kinds[k][1]
@@ -168,7 +168,7 @@ def run(ctx):
         for x in kb.expr(c.args[1]).walk():
             if x.k == 'agg' and x.d == 'closure' and x.a in prog.bodies:
                 cb = prog.bodies[x.a]
-                if cb.calls(r'PartialEq.*>::ne$'):
+                if L.calls_decl(cb, 'cmp::PartialEq::ne'):
                     okret = True
     ctx.ob('REMOVAL', 'bucket:retain-on-id', same_idx and okret and bool(rr.calls(r'KBucket::remove_node$')), rr.where(),
            'routing removal uses the insertion bucket index (%s) and retains entries whose id differs (%s)' % (same_idx, okret))
